@@ -212,7 +212,7 @@ package hook
 //@ func (*Hook).Run
 //@   prop C12, C18
 //@   requires [rate-limit-token] shell_operator.lastWaitHook == h && shell_operator.lastWaitErr == nil && h != nil
-//@   requires h.HookController != nil && h.Config != nil && (h.Config.Version == "v0" || h.Config.Version == "v1") && nProcess >= 0
+//@   requires h.HookController != nil && h.Config != nil && (h.Config.Version == "v0" || h.Config.Version == "v1") && nProcess >= 0 && !fsExists[""]
 //@   modifies bctx.lastConvIn, bctx.lastConvVersion, bctx.lastConvOut, lastRefreshIn, lastRefreshOut
 //@   modifies shell_operator.nRun, shell_operator.ranContexts, shell_operator.lastWaitHook, shell_operator.lastHookResult, shell_operator.lastHookErr, fsExists, ctxFileContent, nProcess, lastExitErr, nOutputsRead
 //@   ghostset shell_operator.nRun := shell_operator.nRun + 1
